@@ -28,6 +28,16 @@ pub struct UvQuery {
     pub h: f64,
 }
 
+/// A 3-D probe near the surface: a surface point (possibly on an edge or a vertex: zero
+/// barycentric coordinates) plus an offset, both in the base pose; the offset is a fraction of
+/// the mesh size. Its projection may land on a face, an edge or a vertex of the mesh.
+#[derive(Serialize, Deserialize, Clone, Debug)]
+pub struct NearQuery {
+    pub face: usize,
+    pub bc: [f64; 3],
+    pub offset: [f64; 3],
+}
+
 #[derive(Serialize, Deserialize, Clone, Debug)]
 pub struct Sc {
     pub label: String,
@@ -36,11 +46,15 @@ pub struct Sc {
     pub mesh: M,
     pub poses: Vec<Pose>,
     pub uv_queries: Vec<UvQuery>,
+    #[serde(default)]
+    pub near_queries: Vec<NearQuery>,
 }
 
 pub struct UvObs {
     pub to_3d: Vec<Option<([f64; 3], [f64; 3])>>,
     pub back: Vec<Option<([f64; 2], f64)>>,
+    /// per near query: uv_with_tol(p) and then uv_to_3d of that uv
+    pub near: Vec<Option<([f64; 2], Option<[f64; 3]>)>>,
 }
 
 pub struct PoseObs {
@@ -292,6 +306,7 @@ impl Property for C20 {
 
     fn generate(&self, rng: &mut Rng, tier: Tier) -> Sc {
         let kind = *rng.pick(&[Kind::Planar, Kind::Planar, Kind::Planar, Kind::Curved, Kind::Curved, Kind::Reject]);
+        let mut return_rolled = false;
         let (label, mut mesh) = match kind {
             Kind::Planar => {
                 let (l, mut m) = gen_planar_base(rng, tier);
@@ -328,10 +343,14 @@ impl Property for C20 {
                             let a = p[0] / r;
                             *p = [r * a.sin(), p[1], r * (1.0 - a.cos())];
                         }
+                        scramble(rng, &mut m);
+                        return_rolled = true;
                     }
                 }
-                scramble(rng, &mut m);
-                (format!("{}+curved", l), m)
+                if !return_rolled {
+                    scramble(rng, &mut m);
+                }
+                (format!("{}+curved{}", l, if return_rolled { "+rolled" } else { "" }), m)
             }
             Kind::Reject => gen_reject(rng),
         };
@@ -360,7 +379,53 @@ impl Property for C20 {
                 uv_queries.push(UvQuery { face: rng.below(mesh.f.len()), bc, h: *rng.pick(&[0.0, 0.01, -0.01, 0.05]) });
             }
         }
-        Sc { label, kind, mesh, poses, uv_queries }
+        // probes near the surface whose projection may land on an edge or a vertex (rim of the
+        // sheet, convex ridge); only where the layout is injective (planar, rolled sheets)
+        let mut near_queries = Vec::new();
+        if kind == Kind::Planar || label.ends_with("+rolled") {
+            let bdeg = mesh.boundary_degree();
+            for _ in 0..(2 + rng.below(8)) {
+                let face = rng.below(mesh.f.len());
+                let f = mesh.f[face];
+                let t = mesh.tri(face);
+                let n = mesh.normal(face).unwrap_or([0.0, 0.0, 1.0]);
+                let k = rng.below(3);
+                let (bc, offset) = match rng.below(4) {
+                    0 => {
+                        // anywhere on the face, random offset
+                        let mut bc = [rng.f64(), rng.f64(), rng.f64()];
+                        let s: f64 = bc.iter().sum::<f64>().max(1e-9);
+                        for b in bc.iter_mut() {
+                            *b /= s;
+                        }
+                        (bc, scale(unit([rng.normal(), rng.normal(), rng.normal() + 1e-3]), rng.uniform(0.0, 0.05)))
+                    }
+                    1 | 2 => {
+                        // on edge k (from corner k to corner k+1), pushed outward in the face plane
+                        let tt = rng.uniform(0.05, 0.95);
+                        let mut bc = [0.0; 3];
+                        bc[k] = 1.0 - tt;
+                        bc[(k + 1) % 3] = tt;
+                        let (a, b, c3) = (t[k], t[(k + 1) % 3], t[(k + 2) % 3]);
+                        let e = add(scale(a, 1.0 - tt), scale(b, tt));
+                        let ab = unit(sub(b, a));
+                        let w = sub(e, c3);
+                        let outward = unit(sub(w, scale(ab, dot(w, ab))));
+                        let up = *rng.pick(&[0.0, 0.01, -0.01, 0.03]);
+                        (bc, add(scale(outward, rng.uniform(0.002, 0.03)), scale(n, up)))
+                    }
+                    _ => {
+                        // at corner k, random offset
+                        let mut bc = [0.0; 3];
+                        bc[k] = 1.0;
+                        let _ = (f, &bdeg);
+                        (bc, scale(unit([rng.normal(), rng.normal(), rng.normal() + 1e-3]), rng.uniform(0.002, 0.03)))
+                    }
+                };
+                near_queries.push(NearQuery { face, bc, offset });
+            }
+        }
+        Sc { label, kind, mesh, poses, uv_queries, near_queries }
     }
 
     fn swarm(&self, rng: &mut Rng, sc: &Sc) -> Swarm {
@@ -411,7 +476,7 @@ impl Property for C20 {
             }
             // UV round trip on the first pose of planar scenarios (companion)
             let mut uv = None;
-            if pi == 0 && sc.kind == Kind::Planar {
+            if pi == 0 && (sc.kind == Kind::Planar || !sc.near_queries.is_empty()) {
                 if let Some(OpResult::Done(Ok(layout))) = &flat {
                     let size = sc.mesh.size();
                     uv = Some(sim.op("Mesh::uv_to_3d/uv_with_tol", b, || {
@@ -434,7 +499,17 @@ impl Property for C20 {
                                     .map(|(p, d)| ([p.x, p.y], d)),
                             );
                         }
-                        Ok(UvObs { to_3d, back })
+                        let mut near = Vec::new();
+                        for q in &sc.near_queries {
+                            let t = sc.mesh.tri(q.face);
+                            let base = add(add(scale(t[0], q.bc[0]), scale(t[1], q.bc[1])), scale(t[2], q.bc[2]));
+                            let p = pose.apply(add(base, scale(q.offset, size)));
+                            let reach = (norm(q.offset) * 2.0 + 0.01) * size;
+                            near.push(with_uv.uv_with_tol(&Point3::new(p[0], p[1], p[2]), reach, 4.0, None).map(|(uvp, _)| {
+                                ([uvp.x, uvp.y], with_uv.uv_to_3d(&uvp).map(|s| [s.point.x, s.point.y, s.point.z]))
+                            }));
+                        }
+                        Ok(UvObs { to_3d, back, near })
                     }));
                 }
             }
@@ -537,6 +612,52 @@ impl Property for C20 {
                         OpResult::Done(Err(e)) => out.push(Violation::new("unexpected-error", "UvMapping::new", e.clone(), &[vi])),
                         OpResult::Done(Ok(o)) => {
                             let uv = layout;
+                            // probes near the surface: through UV and back must give the closest
+                            // point of the mesh (only judged where that point is unique by a margin
+                            // and the layout is near-isometric, hence injective)
+                            if let Some(l) = uv {
+                                if distortion(&posed, l) < 1e-3 {
+                                    for (qi, q) in sc.near_queries.iter().enumerate() {
+                                        let t = sc.mesh.tri(q.face);
+                                        let base = add(add(scale(t[0], q.bc[0]), scale(t[1], q.bc[1])), scale(t[2], q.bc[2]));
+                                        let p = sc.poses[pi].apply(add(base, scale(q.offset, size)));
+                                        let mut best = (f64::INFINITY, [0.0; 3]);
+                                        let mut cands: Vec<(f64, [f64; 3])> = Vec::new();
+                                        for fi in 0..posed.f.len() {
+                                            let cp = closest_on_triangle(p, &posed.tri(fi));
+                                            let d = dist3(p, cp);
+                                            cands.push((d, cp));
+                                            if d < best.0 {
+                                                best = (d, cp);
+                                            }
+                                        }
+                                        // unique closest point: every candidate that is nearly as
+                                        // close must be (nearly) the same point
+                                        let unique = cands.iter().all(|(d, cp)| *d > best.0 + 1e-4 * size || dist3(*cp, best.1) < 1e-7 * size);
+                                        if !unique {
+                                            stats.bump("undetermined:near-probe-closest-point-not-unique");
+                                            continue;
+                                        }
+                                        stats.bump("companion:uv-near-probe");
+                                        match &o.near[qi] {
+                                            None => {
+                                                out.push(Violation::new("uv-round-trip", "Mesh::uv_with_tol", format!("near probe {} (face {}, bc {:?}) returned None although the mesh is {:.3e} away", qi, q.face, q.bc, best.0), &[vi]));
+                                                break;
+                                            }
+                                            Some((_, None)) => {
+                                                out.push(Violation::new("uv-round-trip", "Mesh::uv_to_3d", format!("near probe {}: uv_to_3d of the returned uv is None", qi), &[vi]));
+                                                break;
+                                            }
+                                            Some((_, Some(back))) => {
+                                                if dist3(*back, best.1) > 1e-5 * size {
+                                                    out.push(Violation::new("uv-round-trip", "Mesh::uv_with_tol", format!("near probe {} (face {}, bc {:?}, offset {:?}): through UV and back gives {:?} but the closest surface point is {:?} ({:.3e} apart)", qi, q.face, q.bc, q.offset, back, best.1, dist3(*back, best.1)), &[vi]));
+                                                    break;
+                                                }
+                                            }
+                                        }
+                                    }
+                                }
+                            }
                             for (qi, q) in sc.uv_queries.iter().enumerate() {
                                 stats.bump("companion:uv-round-trip");
                                 let t = posed.tri(q.face);
@@ -674,6 +795,12 @@ impl Property for C20 {
                 out.push(Sc { poses: p, ..sc.clone() });
             }
         }
+        if !sc.near_queries.is_empty() {
+            out.push(Sc { near_queries: vec![], ..sc.clone() });
+            for q in chunk_removals(&sc.near_queries, 1).into_iter().take(8) {
+                out.push(Sc { near_queries: q, ..sc.clone() });
+            }
+        }
         if !sc.uv_queries.is_empty() {
             out.push(Sc { uv_queries: vec![], ..sc.clone() });
             for q in chunk_removals(&sc.uv_queries, 1).into_iter().take(8) {
@@ -694,7 +821,8 @@ impl Property for C20 {
             // uv queries refer to faces: keep only the ones that survive
             let map: std::collections::BTreeMap<usize, usize> = keep.iter().enumerate().map(|(n, &o)| (o, n)).collect();
             let uvq = sc.uv_queries.iter().filter_map(|q| map.get(&q.face).map(|&f| UvQuery { face: f, ..q.clone() })).collect();
-            out.push(Sc { mesh: m, uv_queries: uvq, ..sc.clone() });
+            let nq = sc.near_queries.iter().filter_map(|q| map.get(&q.face).map(|&f| NearQuery { face: f, ..q.clone() })).collect();
+            out.push(Sc { mesh: m, uv_queries: uvq, near_queries: nq, ..sc.clone() });
         }
         out
     }
